@@ -610,7 +610,8 @@ package bt
 //@   loop 0 invariant (and (spec.inputs_nonnil tx) (spec.outputs_nonnil tx) (= (. tx Outputs) (old (. tx Outputs))) (>= (len (. tx Inputs)) (old (len (. tx Inputs)))))
 //@   loop 0 invariant (forall ((k Int)) (=> (and (<= 0 k) (< k (old (len (. tx Inputs))))) (= (at (. tx Inputs) k) (old (at (. tx Inputs) k)))))
 //@   loop 0 invariant (spec.deficit_is tx fq deficit)
-//@   loop 0 invariant (and (>= (ghost supplied) (old (ghost supplied))) (= (len (. tx Inputs)) (+ (old (len (. tx Inputs))) (- (ghost supplied) (old (ghost supplied))))))
+//@   loop 0 invariant (>= (ghost supplied) (old (ghost supplied)))
+//@   loop 0 invariant (= (len (. tx Inputs)) (+ (old (len (. tx Inputs))) (- (ghost supplied) (old (ghost supplied)))))
 //@   loop 0 invariant (forall ((k Int)) (=> (and (<= (old (len (. tx Inputs))) k) (< k (len (. tx Inputs)))) (spec.input_of_utxo (at (. tx Inputs) k) (cast *bt.UTXO (utxo_hist (+ (old (ghost supplied)) (- k (old (len (. tx Inputs))))))))))
 //@   loop 0 invariant (forall ((k Int)) (=> (and (<= 0 k) (< k (len (. tx Inputs)))) (allocated (at (. tx Inputs) k))))
 // the estimate works on a deep copy: nothing that existed before is written
